@@ -997,11 +997,20 @@ func (fr *frame) slice(i *ssa.Slice, bc string, st *state) {
 		arr := xt.Elem().Underlying().(*types.Array)
 		p := fr.ptr(i.X)
 		if !p.flat {
-			e.errf("%s: slicing an array nested in a struct is outside the subset (%s)", fr.fn.Name(), fr.srcText(i.Pos()))
-			fr.havocVal(i, st)
-			return
+			if !fr.abstractOK("nestedslice") {
+				e.errf("%s: slicing an array nested in a struct is outside the subset (%s)", fr.fn.Name(), fr.srcText(i.Pos()))
+				fr.havocVal(i, st)
+				return
+			}
+			// abstraction (opt-in): the slice aliases the array field, which the struct datatype cannot express. The field
+			// is given an unknown value here, the slice points at fresh memory of unknown contents, and every later read or
+			// write of that field in this function is an encoding error (nothing may be concluded about its contents).
+			e.store(st, p, e.fresh("nested", e.st.sortOf(arr)))
+			e.poison(p)
+			base, ln, cp = e.alloc(st, intLit64(arr.Len())), intLit64(arr.Len()), intLit64(arr.Len())
+		} else {
+			base, ln, cp = p.addr, intLit64(arr.Len()), intLit64(arr.Len())
 		}
-		base, ln, cp = p.addr, intLit64(arr.Len()), intLit64(arr.Len())
 	}
 	lo := "0"
 	if i.Low != nil {
